@@ -122,6 +122,20 @@ fn caller(spec: ReaderSpec, dir: String, shared: Shared, problems: Arc<Mutex<Vec
 }
 
 pub fn explore(spec: &ReaderSpec, vios: &mut Vec<Violation>, stats: &mut SchedStats, deadline: Instant) -> Result<(), Machinery> {
+    // iterative context bounding: every schedule with at most 1, then at most 2
+    // preemptions (small spaces, completed first), then everything. The bounded
+    // passes only order the work: the last pass is the full exploration.
+    for bound in [1usize, 2] {
+        let mut dfs = Dfs::new(0, FaultPolicy::None);
+        dfs.preempt_bound = Some(bound);
+        let before = vios.len();
+        let caps_before = stats.caps_hit;
+        explore_with(spec, vios, stats, deadline, dfs)?;
+        stats.outcome_add(&format!("reader-pass-preemptions<={}{}", bound, if stats.caps_hit > caps_before { "-capped" } else { "-complete" }));
+        if vios.len() > before {
+            return Ok(());
+        }
+    }
     explore_with(spec, vios, stats, deadline, Dfs::new(0, FaultPolicy::None))
 }
 
